@@ -1,6 +1,7 @@
 import Cactus.Lemmas.LocalContract
 import Cactus.Lemmas.Basic
 import Cactus.Lemmas.Table
+import Cactus.Lemmas.Shared.RunWith   -- `runWith` (`run` with an explicit step budget)
 /-!
 # C13 — forgetting `unadopt` (KNOWN FINDING D4: the property is false of the code)
 
@@ -16,8 +17,8 @@ a handle the program still holds and a reachable object is destroyed.  This file
 * a positive instance of `C13_partial`: a forgotten `unadopt` outside the collected group, nothing
   destroyed prematurely.
 Not proved (false): safety of arbitrary histories with elided `unadopt`.
-Also defines `runWith` (`run` with an explicit step budget), used by `Props/C01.lean` and
-`Props/C03.lean`.
+`runWith` (`run` with an explicit step budget), used by the counterexample, is defined in
+`Lemmas/Shared/RunWith.lean`; this file imports no other property file.
 -/
 namespace Cactus
 open State
@@ -31,9 +32,6 @@ def elidedHistory : List (Op × List Nat) :=
    (.act (.drop 1), []),                              -- program drops its own handle to b
    (.act (.take 0 0), []),                            -- …takes b's handle out of a, no unadopt
    (.act (.drop 0), [])]                              -- …and drops its handle to a
-
-def runWith (fuel : Nat) (ops : List (Op × List Nat)) : State :=
-  ops.foldl (fun s oh => execOp fuel s oh.1 oh.2) {}
 
 /-- the program still holds a handle to object 1, yet its value has been destroyed and its
 allocation released: the negation of C13 on a 9-call history -/
